@@ -59,13 +59,15 @@ Inductive opclass :=
 | OpScClose.        (* SC StatusReport(CloseSession) *)
 
 Record msg := mkMsg {
-  m_key : N; m_enc : bool; m_group : bool;   (* [m_group]: the group flag of the plain header *)
+  m_key : N; m_enc : bool;
+  m_group : bool;   (* the group flag of the plain header *)
+  m_ctl : bool;     (* the control flag of the plain header (group control messages, MCSP) *)
   m_ctr : N; m_exid : N; m_init : bool;
   m_op : opclass; m_rel : bool; m_ack : option N }.
 
 (** what is left of a received group data message: R and A flags are not honoured *)
 Definition strip_mrp (m : msg) : msg :=
-  mkMsg (m_key m) (m_enc m) (m_group m) (m_ctr m) (m_exid m) (m_init m) (m_op m) false None.
+  mkMsg (m_key m) (m_enc m) (m_group m) (m_ctl m) (m_ctr m) (m_exid m) (m_init m) (m_op m) false None.
 
 Definition is_standalone_ack (o : opclass) : bool :=
   match o with OpStandaloneAck => true | _ => false end.
@@ -159,7 +161,7 @@ Definition exch_post_recv (e : exch) (m : msg) (now : N) : exch * res unit :=
 
 (** [Session::post_recv] (session.rs:628).  [Ok true] = a new exchange was
     created, [Ok false] = routed to an existing one. *)
-Definition session_post_recv (s : session) (m : msg) (now : N) : session * res bool :=
+Definition session_post_recv_raw (s : session) (m : msg) (now : N) : session * res bool :=
   let '(w', fresh) := post_recv (s_win s) (m_ctr m) (s_enc s) false in
   let s1 := set_win s w' in
   if negb fresh then (s1, Err ERR_DUPLICATE) else
@@ -187,6 +189,14 @@ Definition session_post_recv (s : session) (m : msg) (now : N) : session * res b
         | None => (s1, Err ERR_NO_SPACE_EXCHANGES)
         end
   end.
+
+(** group data messages never use MRP: on a session in group mode the R and A flags
+    of anything but a control message are not honoured *)
+Definition effective (s : session) (m : msg) : msg :=
+  if s_group s && negb (m_ctl m) then strip_mrp m else m.
+
+Definition session_post_recv (s : session) (m : msg) (now : N) : session * res bool :=
+  session_post_recv_raw s (effective s m) now.
 
 (** [Session::remove_exch] applied to slot [i] holding [e] *)
 Definition remove_exch (l : list (option exch)) (i : nat) (e : exch) : list (option exch) :=
@@ -291,14 +301,12 @@ Definition group_gc (ss : list session) (sid : N) : list session :=
   | None => ss
   end.
 
-Definition do_rx (s : sys) (m : msg) : sys * list event :=
+Definition do_rx_core (s : sys) (m : msg) : sys * list event :=
   (* decode_packet: session lookup (or creation), then Session::post_recv *)
   let '(ss1, nsid, dec) :=
     match find_key (sessions s) (m_key m) with
     | Some se =>
-        (* group data messages never use MRP (decode_remaining strips R and A) *)
-        let m1 := if s_group se then strip_mrp m else m in
-        let '(se', r) := session_post_recv se m1 (now s) in
+        let '(se', r) := session_post_recv se m (now s) in
         (upd_sid (sessions s) (s_id se) (fun _ => se'), next_sid s, Some (s_id se, r))
     | None =>
         if negb (m_enc m) && is_new_session (m_op m) then
@@ -307,7 +315,7 @@ Definition do_rx (s : sys) (m : msg) : sys * list event :=
         else if m_enc m && m_group m then
           (* get_or_create_for_group_rx: one ephemeral session per authenticated group message
              (key lookup, authentication and the group counter store are C03 / C04) *)
-          let '(se', r) := session_post_recv (new_session (next_sid s) (m_key m) true true) (strip_mrp m) (now s) in
+          let '(se', r) := session_post_recv (new_session (next_sid s) (m_key m) true true) m (now s) in
           (sessions s ++ [se'], next_sid s + 1, Some (next_sid s, r))
         else (sessions s, next_sid s, None)
     end in
@@ -334,6 +342,28 @@ Definition do_rx (s : sys) (m : msg) : sys * list event :=
           else (mk ss1 RxEmpty, [])     (* NoExchange and anything else: dropped *)
       | Panic _ => (mk ss1 RxEmpty, [])
       end
+  end.
+
+(** the session a datagram is (or would be) processed on *)
+Definition rx_sid (s : sys) (m : msg) : option N :=
+  match find_key (sessions s) (m_key m) with
+  | Some se => Some (s_id se)
+  | None =>
+      if (negb (m_enc m) && is_new_session (m_op m)) || (m_enc m && m_group m) then Some (next_sid s) else None
+  end.
+
+Definition is_holding (r : rxslot) : bool := match r with RxHolding _ => true | _ => false end.
+
+(** [handle_rx_packet] to its end: the ephemeral session of a group message that is
+    not kept for an exchange, and has none, is removed again *)
+Definition do_rx (s : sys) (m : msg) : sys * list event :=
+  let '(s1, ev) := do_rx_core s m in
+  match rx_sid s m with
+  | Some sid =>
+      if m_group m && negb (is_holding (rx s1)) then
+        (mkSys (group_gc (sessions s1) sid) (rx s1) (handles s1) (now s1) (next_sid s1), ev)
+      else (s1, ev)
+  | None => (s1, ev)
   end.
 
 (** ** handle_dropped_exchange: first dropped exchange with a pending
